@@ -599,6 +599,10 @@ func (x *Exec) mergeV(c *Term, a, b Value) Value {
 	case SeqL:
 		bv := b.(SeqL)
 		return SeqL{Len: Ite(c, av.Len, bv.Len), Data: Ite(c, av.Data, bv.Data), Elem: av.Elem}
+	case SeqV:
+		if bv, ok := b.(SeqV); ok && av.Data.S == bv.Data.S {
+			return SeqV{Len: Ite(c, av.Len, bv.Len), Data: Ite(c, av.Data, bv.Data), Elem: av.Elem}
+		}
 	case SliceV:
 		bv := b.(SliceV)
 		if av.Obj == bv.Obj && samePath(av.Base, bv.Base) {
@@ -1614,7 +1618,8 @@ func (x *Exec) step(st *State, fr *Frame, ins ssa.Instruction) *Outcome {
 			if p.Obj == nil {
 				return rtPanicNil(x, st, fr, ins)
 			}
-			fr.env[in] = x.load(st, p)
+			// slice-typed leaves read out of a lifted container enter the frame as slices over a fresh backing
+			fr.env[in] = x.materialize(st, x.load(st, p))
 		case token.NOT:
 			fr.env[in] = Scalar{Not(xv.(Scalar).T)}
 		case token.SUB:
@@ -2153,6 +2158,12 @@ func (x *Exec) equal(a, b Value) *Term {
 		}
 		if av.Obj == nil && av.Nil == nil {
 			return sliceNil(bv)
+		}
+	case SeqV:
+		// slice contents read out of a lifted container: equal when the lengths and the content arrays agree
+		// (sufficient, and what "the record is unchanged" means)
+		if bv, ok := b.(SeqV); ok && av.Data.S == bv.Data.S {
+			return And(Eq(av.Len, bv.Len), Eq(av.Data, bv.Data))
 		}
 	case Ptr:
 		bp := b.(Ptr)
